@@ -18,6 +18,7 @@ def contracts():
     cs += [K.parse_contract(k) for k in ('datetime', 'date', 'str')]
     cs += [K.to_enum_contract(k) for k in ('member', 'none', 'str', 'other')]
     cs.append(timestamp_property_contract())
+    cs += [K.should_set_millisecond_contract(k) for k in ('str', 'datetime', 'stixdatetime')]
     return cs
 
 
